@@ -529,6 +529,13 @@ Definition revision_selector (c : ccfg) (parent : json) : option selector :=
   | other => other
   end.
 
+(* ControllerRevisions go through the typed client: an owner list left empty is omitted on the wire *)
+Definition set_owner_refs_typed (o : json) (refs : list oref) : json :=
+  match refs, o with
+  | [], JObj m => JObj (nested_remove m ["metadata"; "ownerReferences"])
+  | _, _ => set_owner_refs o refs
+  end.
+
 Definition claim_rev_one (c : ccfg) (parent : json) (sel : selector)
            (st : option bool * list json * bool) (o : json) : prog (option bool * list json * bool) :=
   let '(once, claimed, failed) := st in
@@ -538,7 +545,7 @@ Definition claim_rev_one (c : ccfg) (parent : json) (sel : selector)
   | ClIgnore => Ret (once, claimed, failed)
   | ClRelease =>
       r <~ update_with_retries retry_steps ns (get_name o) (get_uid o)
-             (fun cur => Some (set_owner_refs cur (remove_owner_ref (get_owner_refs cur) (get_uid parent)))) ;;
+             (fun cur => Some (set_owner_refs_typed cur (remove_owner_ref (get_owner_refs cur) (get_uid parent)))) ;;
       match r with
       | ROk _ | RErr ENotFound | RErr EGone => Ret (once, claimed, failed)
       | RErr _ => Ret (once, claimed, true)
